@@ -219,16 +219,66 @@ panic_finding("ident-unwrap", "prqlc-parser/src/parser/pr/ident.rs", "called `Op
  "PL JSON with an empty Ident path: {\"Ident\": []}", "json::to_pl")
 panic_finding("codegen-ast-unwrap", "prqlc/src/codegen/ast.rs", "called `Option::unwrap()` on a `None` value",
  "PL JSON mutated so that a node the formatter unwraps is missing", "pl_to_prql on PL JSON")
-for kind, what in [("pipeline", "a pipeline of N `| derive {x = 1}` steps"), ("add", "`1 + 1 + ... + 1` with N terms"), ("lets", "a chain of N let-tables each reading the previous one")]:
+for kind, what, nmin in [("pipeline", "a pipeline of N `| derive {x = 1}` steps", 1024), ("add", "`1 + 1 + ... + 1` with N terms", 1024), ("lets", "a chain of N let-tables each reading the previous one", 4096), ("fstr", "an f-string with N interpolations", 16384)]:
     FINDINGS.append({"id": f"C12-deep-nesting-{kind}", "property": "C12", "also_seen_by": [], "status": "open",
-        "signature": f"nesting ladder kind `{kind}`: the child process is killed by a signal (stack overflow) at depth >= 4096",
-        "description": f"{what}, N = 4096 (about 60 KB of source): compile overflows the 8 MiB main-thread stack (recursive descent / PlFold without a depth limit) and the process aborts with SIGABRT.",
-        "example": f"pv depth {kind} 4096"})
+        "signature": f"nesting ladder kind `{kind}`: the child process is killed by a signal (stack overflow) at depth >= {nmin}",
+        "description": f"{what}, N = {nmin}: compile overflows the 8 MiB main-thread stack (recursive descent / PlFold without a depth limit) and the process aborts with SIGABRT.",
+        "example": f"pv depth {kind} {nmin}"})
 
 FINDINGS.append({"id": "C12-abort-rq-json", "property": "C12", "also_seen_by": [], "status": "open",
     "signature": "an RQ JSON document on which rq_to_sql kills the process by a signal (stack overflow -> SIGABRT)",
     "description": "RQ JSON in which a Compute refers to its own column id (`{\"Compute\": {\"id\": 2, \"expr\": ColumnRef 2 * -1}}`) followed by a Sort/Take on it: the SQL back-end inlines the expression recursively without a visited set and overflows the stack; the process aborts instead of returning an error.",
     "example": "see replays/C12/abort-rq-json-self-referential-compute.json"})
+
+FINDINGS.append({"id": "C12-abort-source", "property": "C12", "also_seen_by": [], "status": "open",
+    "signature": "a source containing `import` on which a stage kills the process by a signal (stack overflow -> SIGABRT)",
+    "description": "`import x` followed by `from x` (16 bytes) sends the resolver into unbounded recursion (an import that resolves to itself): the process aborts with a stack overflow instead of returning an error.",
+    "example": "import x\nfrom x"})
+finding("C10-ambiguous-computed-name-unaliased-join", "C10", [],
+ "a bare name after a join whose right-hand sub-pipeline has no relation alias, when the name is computed / aliased on both sides, or when both sides read the same table (same relation name)",
+ "`from t1 | select {id, a = b} | join (from t2 | select {a = id}) (true) | derive {zz = a}` is accepted and `a` silently resolves to the right-hand column; likewise `from t2 | select {id, s} | join (from t2 | select {id}) (true) | derive {zz = id}` (both sides are relation `t2`). Other combinations (plain column of different tables on either side, or a relation alias on the right) are rejected as `Ambiguous name`.",
+ None)
+
+finding("C07-ansi-underscore-identifier", "C07", ["C05", "C09"],
+ "dialect ansi, the emitted SQL contains a generated name `_expr_N` and sqlparser's AnsiDialect reports `Expected: an identifier`",
+ "Generated helper names start with an underscore (`... AS _expr_0`); in ANSI SQL a regular identifier must start with a letter, so the name would need quoting under the ansi dialect. sqlparser's AnsiDialect rejects the statement.",
+ None)
+finding("C07-mssql-boolean-literal", "C07", ["C05", "C09"],
+ "dialect mssql, the binder reports that column `true` / `false` is not in scope",
+ "Boolean literals are emitted verbatim for mssql (`WHERE true`, `INNER JOIN .. ON true`, `false AS c`); T-SQL has no boolean literals, the words are parsed as column names (SQL Server: Invalid column name 'true').",
+ None)
+finding("C05-result-column-order-differs-from-frame", "C05", ["C01"],
+ "the result has the frame's columns (same arity, same names) in a different order",
+ "After `group` with a non-aggregating pipeline / `select !{..}` over a frame that mixes columns of input relations with computed columns, the SQL projection lists the relations' columns first and the computed ones afterwards (construct_tuple_from_module sorts name-space entries by an `order` that counts inputs and columns on different scales), so the result column order differs from the frame (RQ relation.columns); before the fix of the tie-break the order even varied between runs.",
+ None)
+finding("C11-column-order-hash-dependent", "C11", [],
+ "two outputs for the same call that consist of the same tokens in a different order (column lists)",
+ "see the `fixed:` entries: resolved by the tie-break fix; kept for the record",
+ None)
+finding("C11-error-text-hash-dependent", "C11", [],
+ "two error outputs for the same call that consist of the same tokens in a different order",
+ "the `available columns` hint of `Unknown name` lists inferred columns in hash order",
+ None)
+
+finding("C07-join-rewritten-to-intersect", "C07", ["C01", "C05", "C09"],
+ "the program has no `intersect`, the emitted SQL contains INTERSECT ALL and the binder reports a set operation between different arities",
+ "preprocess.rs rewrites an inner join whose condition equates every (remaining) column of both sides into INTERSECT ALL. After column pruning or with a wildcard side the operands differ in arity: `from l0 | join t1 (c0 == id) | select {c3 = c0 + 1, c0}` -> `SELECT c0 FROM l0 INTERSECT ALL SELECT * FROM t1`. (When the arities do agree the rewrite still changes multiplicities: m x n matching pairs become min(m, n) rows; not executable on SQLite, which has no INTERSECT ALL.)",
+ None)
+
+finding("C07-distinct-on-computed-sort-key", "C07", ["C09"],
+ "a dialect with DISTINCT ON (postgres, duckdb, ...), `group k (sort {<computed key>, ..} | take 1)`: the binder reports `ORDER BY: column _expr_N is not in scope`",
+ "`from t | select {a, b, c} | group {a} (sort {(b * 0), c} | take 1)` under postgres: `SELECT DISTINCT ON (a) a, c, b FROM t ORDER BY a, _expr_0, c`: the computed sort key is referred to by its generated alias, which this SELECT never defines.",
+ None)
+
+finding("C09-generated-cte-name-equals-user-column", "C09", [],
+ "a user column or alias is named like a generated relation (`table_N`) and the emitted SQL defines a CTE / alias of that name",
+ "Generated relation names are only kept distinct from user *table* names. With a user column `table_0`, the CTE `table_0 AS (SELECT .. table_0 FROM ..)` makes `table_0.table_0` a compound identifier whose two parts deduplicate_select_items has already seen, so the column is dropped from the projection (arity 4 for a 5-column frame / `no such column: table_0`), and a bare `table_0` in ORDER BY becomes ambiguous with the relation.",
+ None)
+
+finding("C09-helper-column-name-equals-user-column", "C09", [],
+ "a user column or alias is named like a generated helper column (`_expr_N`) in a program for which the compiler needs a helper column",
+ "`select {_expr_1, limit = A % 1, _expr_0 = 0 ** 0} | filter _expr_1 + 1 != limit + 3 | filter (rank limit) > 2`: the windowed filter needs a helper column; the compiler names it `_expr_1`, which is the user's column: the emitted `WHERE _expr_1 > 2` filters on the user's column and the RANK() is never computed.",
+ None)
 
 k = json.load(open(os.path.join(V, "known_findings.json")))
 keep = [f for f in k["findings"] if f["id"] not in {x["id"] for x in FINDINGS}]
